@@ -26,7 +26,12 @@ package main
 //     every other for / range-over-a-slice loop, with break and continue (LOOPS below)
 //     x.f = e   x.f op= e   x.f++   m[k] = e   s[i] = e   s[i].f = e   *p = e   (STATE below)
 //     calls of methods that do such things, as statements or as the whole right-hand side
-//     append(s, x...)   make(map[K]V)   map[K]V{k: v, ...}   T{...} for a struct of the subset
+//     append(s, x...)   make(map[K]V)   make([]T, 0, n)   map[K]V{k: v, ...}   T{...} for a struct of the subset
+//     results of type error, as a bool "err != nil" (errors.New(msg) = true after evaluating msg, nil = false,
+//       err != nil / err == nil; what the error says is not modelled)
+//     r, size := utf8.DecodeRuneInString(s)   n, err := strconv.ParseInt(s, base, bits)   string([]rune)
+//       (library functions that stay parameters: f_utf8_DecodeRuneInString, f_strconv_ParseInt, f_string_runes;
+//        likewise strings.ToLower / ToUpper, x.M() on an interface parameter, v.String() of a data.Value)
 //     log.Print* (skipped: the process log is not modelled), hooks named in the configuration
 //     panic(...)  and calls of methods whose own body ends in panic (t.errorf ...)
 //   over bool, the integer types (int, rune, byte, uint32, uint64, named ones such as
@@ -144,6 +149,7 @@ type gtype struct {
 	elem, key *gtype
 	fields    []gfield
 	valueKind int    // for the concrete data types Undefined ... Map: index in valueKinds, else -1
+	isErr     bool   // the predeclared type error, as a bool: "is not nil" (what the error says is not modelled)
 	ndir      string // named type of /repo: its package directory ...
 	nname     string // ... and its name (methods are looked up under it)
 }
@@ -154,6 +160,7 @@ var (
 	tBytes  = &gtype{kind: kString, name: "[]byte", valueKind: -1}
 	tValue  = &gtype{kind: kValue, name: "data.Value", valueKind: -1}
 	tUInt   = &gtype{kind: kInt, name: "untyped int", bits: 0, signed: true, untyped: true, valueKind: -1}
+	tErr    = &gtype{kind: kBool, name: "error", valueKind: -1, isErr: true}
 )
 
 func intType(name string, bits int, signed bool) *gtype {
@@ -435,6 +442,10 @@ func (g *gen) resolveType(p *gpkg, f *ast.File, e ast.Expr, depth int) *gtype {
 			return tBool
 		case "string":
 			return tString
+		case "error":
+			if _, shadowed := p.types["error"]; !shadowed {
+				return tErr
+			}
 		}
 		if t, ok := basicInts[x.Name]; ok {
 			return t
